@@ -123,7 +123,24 @@ def gen_form(rng, light=False):
         if proc in SIZE_PROCS:
             # a size that cannot be allocated is heap exhaustion, which the property excludes (and non-finite sizes loop allocating)
             args = ["65536" if a in HUGE_ARGS else a for a in args]
-        return {"src": "(%s%s)" % (proc, "".join(" " + a for a in args)), "kind": "hostile", "proc": proc, "cyclic": any(a in CYCLIC_ARGS for a in args)}
+        # the route by which the procedure is reached varies too: direct call, apply with a spread list (of any length), first-class value
+        shape = rng.weighted([("direct", 12), ("apply", 3), ("apply2", 2), ("value", 2), ("map", 1)])
+        if shape != "direct" and rng.chance(1, 3):
+            args += [rng.choice(ARGS) for _ in range(rng.range(1, 5))]
+            if proc in SIZE_PROCS:
+                args = ["65536" if a in HUGE_ARGS else a for a in args]
+        al = "".join(" " + a for a in args)
+        if shape == "apply":
+            src = "(apply %s (list%s))" % (proc, al)
+        elif shape == "apply2" and args:
+            src = "(apply %s %s (list%s))" % (proc, args[0], "".join(" " + a for a in args[1:]))
+        elif shape == "value":
+            src = "((car (list %s))%s)" % (proc, al)
+        elif shape == "map" and args:
+            src = "(map %s%s)" % (proc, "".join(" (list %s %s)" % (a, rng.choice(ARGS)) for a in args[:3]))
+        else:
+            src = "(%s%s)" % (proc, al)
+        return {"src": src, "kind": "hostile", "proc": proc, "cyclic": any(a in CYCLIC_ARGS for a in args)}
     if k == "benign":
         return {"src": rng.choice(BENIGN), "kind": "benign"}
     if k == "nested":
@@ -269,6 +286,8 @@ def execute(case, run):
         if is_probe:
             if s["exc"] and "interrupt" in s["res"].lower():
                 continue    # the interrupt may land inside the probe itself
+            if not s["exc"] and "interrupt_rel" in case["sched"] and s["res"].replace('(err "interrupt")', '(err "boom")') == PROBE_EXPECT:
+                continue    # ... and be caught by the probe's own guard clause, which reports it in place of "boom"
             if s["exc"] or s["res"] != PROBE_EXPECT:
                 prev = plan_steps[i - 1]["src"][:160] if i > 1 else ""
                 V.append(Verdict("context-diverged", "probe after form %r gave %r (fresh context gives %r)" % (prev, s["res"][:300], PROBE_EXPECT[:120]), {"mode": case["mode"]}))
